@@ -12,4 +12,26 @@ CHECKS = {
             "text": "Equality of the two computers' tables proved for every state (all knowledge sets, independent stale rows, no class assumption) per n; repeated invocation and memoisation across player counts checked.",
             "note": _NOTE},
 }
+
+_T = "contract-based deductive verification (pyvc: symbolic execution of the real functions under a numpy model -> SMT obligations, z3/cvc5)"
+CHECKS.update({
+    "C04": {"level": "proof", "technique": _T + "; loop invariant (R-loopcut) for every repetition count; bounded run-time contracts",
+            "text": "SAM approximation proved sound, never looser than SA, monotone and self-consistent for every repetition count (cut loop with inductive invariant + frame), all knowledge sets, all SAM games at n=3,4; registered counts bounded on the real package for larger n.",
+            "note": _NOTE},
+    "C05": {"level": "proof", "technique": _T,
+            "text": "Exploitability identities proved for every real bound table with known grand coalition per n=2..6 (8 thorough): equals summed best-case Shapley gain and the binomial gap; non-negativity, zero iff degenerate, domination of every completion.",
+            "note": _NOTE},
+    "C06": {"level": "proof", "technique": _T + "; spec enumerates the n! orderings",
+            "text": "Both Shapley entry points proved equal to the average marginal contribution over all orderings for all real games per n=2..6 (7 thorough); efficiency, null player, relabelling, linearity on the code's outputs.",
+            "note": _NOTE},
+    "C07": {"level": "proof", "technique": _T + "; relational before/after-reveal obligations; ghost lemmas; lattice edges bounded",
+            "text": "Intervals shrink under a true reveal: spec-level lemma for all K plus code-level relational proof for SA computers and sam_apx_1; gap-function contracts and monotonicity lemmas.",
+            "note": _NOTE + "; SAM counts 10/100/1000 only bounded"},
+    "C08": {"level": "proof", "technique": _T + "; 2-safety by self-composition (two stale pre-states), idempotence, reveal/undo",
+            "text": "Tables proved to be a function of knowledge alone (independent stale rows), idempotent and restored by reveal/un-reveal for SA computers per n and sam_apx_1/10 unrolled; environment step/unstep restore.",
+            "note": _NOTE + "; SAM counts 100/1000 only bounded"},
+    "C09": {"level": "proof", "technique": _T + "; object invariant + per-method contracts from an arbitrary invariant state",
+            "text": "Every ICG_Gym method proved against its contract from an arbitrary state satisfying the environment invariant (all chosen sets at once), real callees inlined, n=3 (4 thorough); real gymnasium sequences bounded.",
+            "note": _NOTE + "; gymnasium.Env stubbed in the deductive part"},
+})
 NOT_APPLICABLE = {}
